@@ -37,22 +37,22 @@ theorem cnOK_q : CnOK Fq2 Wq.soil fmq :=
     adj := fun h => by simp [Wq] at h }
 
 /-- non-vacuity of the antecedent-moisture branch of `CnOK`: curve number 40 with `Fq2`
-(`CNbot ≈ 20.1`, `CNtop ≈ 92.4`, rounding = identity) -/
+(`pow x 2 = x·x`, `pow x 3 = x`: `CNbot ≈ 14.3`, `CNtop ≈ 59.8`, rounding = identity) -/
 theorem cnOK_adj : CnOK Fq2 { Wq.soil with cn := 40, adjCN := true } fmq :=
   { plain := fun h => by simp at h
     adj := fun _ wt h0 h1 => by
       have e : cn0Of ({ Wq.soil with cn := 40, adjCN := true } : SoilW ℚ) fmq = 40 := by
         norm_num [cn0Of, fmq]
       rw [e]
-      have b : cnBounds Fq2 (40 : ℚ) = (1.4 / 127 + 0.507 * 40 - 0.00374 * 40 + 0.0000867 * 40,
-          5.6 / 127 + 2.33 * 40 - 0.0209 * 40 + 0.000076 * 40) := by
+      have b : cnBounds Fq2 (40 : ℚ) = (1.4 / 127 + 0.507 * 40 - 0.00374 * (40 * 40) + 0.0000867 * 40,
+          5.6 / 127 + 2.33 * 40 - 0.0209 * (40 * 40) + 0.000076 * 40) := by
         simp only [cnBounds, Fq2, Fq, id]
         norm_num
       rw [b]
       simp only [Fq2, Fq, id]
       constructor <;> nlinarith }
 
-theorem surfOK_E (wt : Nat) : CfgSurfOK Fq2 (cfgE wt) := ⟨cnOK_q, cnOK_q⟩
+theorem surfOK_E (wt : Nat) : CfgSurfOK Fq2 (cfgE wt) := ⟨cnOK_q, cnOK_q, fnOK_q.powSq⟩
 
 theorem rainOK_E (wt : Nat) : RainOK (cfgE wt) := ⟨fun t => by norm_num [cfgE, cfgq]⟩
 
